@@ -73,6 +73,26 @@ impl InlineCache {
   /// for the provided class
   pub fn get_property_cache(&self, inline_slot: usize, class: ObjRef<Class>) -> Option<usize> {
     debug_assert!(inline_slot < self.property.len());
+
+    #[cfg(feature = "verif")]
+    {
+      use std::sync::atomic::Ordering::Relaxed;
+      if inline_slot >= self.property.len() {
+        crate::verif::violation(format!(
+          "cache: property slot {} out of {}",
+          inline_slot,
+          self.property.len()
+        ));
+        return None;
+      }
+      if crate::verif::CACHE_OFF.load(Relaxed) {
+        return None;
+      }
+      match &self.property[inline_slot] {
+        Some(cache) if cache.class == class => crate::verif::PROPERTY_HITS.fetch_add(1, Relaxed),
+        _ => crate::verif::PROPERTY_MISSES.fetch_add(1, Relaxed),
+      };
+    }
     match unsafe { self.property.get_unchecked(inline_slot) } {
       Some(cache) => {
         if cache.class == class {
@@ -111,6 +131,26 @@ impl InlineCache {
   /// for the provided class
   pub fn get_invoke_cache(&self, inline_slot: usize, class: ObjRef<Class>) -> Option<Value> {
     debug_assert!(inline_slot < self.invoke.len());
+
+    #[cfg(feature = "verif")]
+    {
+      use std::sync::atomic::Ordering::Relaxed;
+      if inline_slot >= self.invoke.len() {
+        crate::verif::violation(format!(
+          "cache: invoke slot {} out of {}",
+          inline_slot,
+          self.invoke.len()
+        ));
+        return None;
+      }
+      if crate::verif::CACHE_OFF.load(Relaxed) {
+        return None;
+      }
+      match &self.invoke[inline_slot] {
+        Some(cache) if cache.class == class => crate::verif::INVOKE_HITS.fetch_add(1, Relaxed),
+        _ => crate::verif::INVOKE_MISSES.fetch_add(1, Relaxed),
+      };
+    }
     match unsafe { self.invoke.get_unchecked(inline_slot) } {
       Some(cache) => {
         if cache.class == class {
@@ -136,11 +176,45 @@ impl InlineCache {
 
   fn set_property(&mut self, inline_slot: usize, value: Option<PropertyCache>) {
     debug_assert!(inline_slot < self.property.len());
+
+    #[cfg(feature = "verif")]
+    {
+      use std::sync::atomic::Ordering::Relaxed;
+      if inline_slot >= self.property.len() {
+        crate::verif::violation(format!(
+          "cache: property slot {} out of {}",
+          inline_slot,
+          self.property.len()
+        ));
+        return;
+      }
+      match value {
+        Some(_) => crate::verif::PROPERTY_FILLS.fetch_add(1, Relaxed),
+        None => crate::verif::PROPERTY_CLEARS.fetch_add(1, Relaxed),
+      };
+    }
     unsafe { *self.property.get_unchecked_mut(inline_slot) = value };
   }
 
   fn set_invoke(&mut self, inline_slot: usize, value: Option<InvokeCache>) {
     debug_assert!(inline_slot < self.invoke.len());
+
+    #[cfg(feature = "verif")]
+    {
+      use std::sync::atomic::Ordering::Relaxed;
+      if inline_slot >= self.invoke.len() {
+        crate::verif::violation(format!(
+          "cache: invoke slot {} out of {}",
+          inline_slot,
+          self.invoke.len()
+        ));
+        return;
+      }
+      match value {
+        Some(_) => crate::verif::INVOKE_FILLS.fetch_add(1, Relaxed),
+        None => crate::verif::INVOKE_CLEARS.fetch_add(1, Relaxed),
+      };
+    }
     unsafe { *self.invoke.get_unchecked_mut(inline_slot) = value };
   }
 }
